@@ -69,7 +69,8 @@ def programs(tier, rng):
     rng.shuffle(hc)
     for k, c in enumerate(hc[:600 if tier == 'quick' else None]):
         uses = hoistgen.applicable(c['uses'], c['lit'])
-        out.append(('hoist-%d' % k, hoistgen.build(set(uses), c['lit']), 'hoist'))
+        # every other one in the skeleton with two separate future statements / with class attributes named like hoisted aliases
+        out.append(('hoist-%d' % k, hoistgen.build(set(uses), c['lit'], 'plain', [None, 'fut2', 'adv', 'adv+fut2'][k % 4]), 'hoist'))
     for name, src in seeds_mod.seeds_for((3, 12)):
         out.append(('seed-' + name, src, 'seed'))
     # arithmetic: the cells of Fold.tla (operator x operand class x operand class, concrete literals as in C07), many to a module in seeded order, each
